@@ -164,6 +164,19 @@ def eq_class(cits):
     return cls
 
 
+def full_key(c):
+    """identity of a full citation written from the property text, not through __hash__/__eq__:
+    None = equal only to itself (placeholder page)"""
+    from eyecite.models import FullCaseCitation
+
+    if isinstance(c, FullCaseCitation):
+        if c.groups.get("page") is None:
+            return None
+        return ("case", c.groups.get("volume"), c.corrected_reporter(), c.groups["page"])
+    return (type(c).__name__, tuple(sorted((k, str(v)) for k, v in c.groups.items())),
+            tuple(sorted(e.short_name for e in c.all_editions)))
+
+
 def monitor_c06(cits, groups):
     from eyecite.models import FullCitation, UnknownCitation
 
@@ -190,6 +203,10 @@ def monitor_c06(cits, groups):
     for i, j in itertools.combinations(sorted(cls), 2):
         if (where[i] == where[j]) != (cls[i] == cls[j]):
             return "full citations share a resource although not equal (or vice versa)"
+        ki, kj = full_key(cits[i]), full_key(cits[j])
+        if (where[i] == where[j]) != (ki is not None and ki == kj):
+            return ("full citations share a resource although their volume / normalised reporter / page differ "
+                    "or the page is a placeholder (or vice versa)")
     return None
 
 
@@ -387,6 +404,32 @@ def run_stream(ctx, monitors, exhaustive_len, n_sampled, max_len, n_docs):
         inp = "[" + "; ".join(cit_term(c, i, edmap) for i, c in enumerate(cits)) + "]"
         cases.append((inp, expected_term(out), dict(stream="resolve", symbols=syms, impl=out[:2])))
     import copy
+    import pickle
+
+    # histories: objects that were already resolved (hashed, compared) once, then copied or pickled and resolved
+    # again in one list together with the originals
+    hist = [list(t) for L in (1, 2) for t in itertools.product(ALPHABET, repeat=L)]
+    hist += [[ctx.rng.choice(ALPHABET) for _ in range(ctx.rng.randrange(3, 6))] for _ in range(max(40, n_sampled // 10))]
+    for syms in hist:
+        base = [make(s) for s in syms]
+        run_impl(base)
+        how = ctx.rng.choice(["deepcopy", "pickle"])
+        try:
+            dup = copy.deepcopy(base) if how == "deepcopy" else pickle.loads(pickle.dumps(base))
+        except Exception:  # noqa
+            ctx.count("history: copy failed")
+            continue
+        cits = base + dup
+        out = run_impl(cits)
+        ctx.case("resolve-history", (tuple(syms), how), True, None)
+        ctx.count(f"history: resolved, {how}, resolved again with the originals")
+        if out[0] == "ok":
+            for name, mon in monitors:
+                bad = mon(cits, out[1], lambda syms=syms: [make(s) for s in syms + syms])
+                if bad:
+                    ctx.violation(None, f"{name}: {bad}", dict(stream="resolve-history", symbols=syms, how=how, groups=out[1]))
+        inp = "[" + "; ".join(cit_term(c, i, edmap) for i, c in enumerate(cits)) + "]"
+        cases.append((inp, expected_term(out), dict(stream="resolve-history", symbols=syms, how=how, impl=out[:2])))
 
     for d, cs in document_lists(ctx, n_docs):
         out = run_impl(cs)
@@ -400,5 +443,5 @@ def run_stream(ctx, monitors, exhaustive_len, n_sampled, max_len, n_docs):
                     ctx.violation(None, f"{name}: {bad}", dict(stream="resolve-extracted", text=d, groups=out[1]))
         inp = "[" + "; ".join(cit_term(c, i, edmap) for i, c in enumerate(cs)) + "]"
         cases.append((inp, expected_term(out), dict(stream="resolve-extracted", text=d, impl=out[:2])))
-    ctx.streams += ["resolve", "resolve-extracted"]
+    ctx.streams += ["resolve", "resolve-history", "resolve-extracted"]
     core.corr_run(ctx, "resolve", PRE, "run_resolve", "res_eqb", cases, shard=300)
